@@ -272,4 +272,5 @@ func ruleDropCount(c *Ctx, r *Rep, tier string) {
 		r.Instance(rule, 1)
 		r.Fail(rule, "bgzf/cache#drop-removals", "bgzf/cache/cache.go", fmt.Sprintf("%d removals found in the drop functions, want 4", n))
 	}
+	ruleTableWhole(c, r, rule)
 }
